@@ -152,3 +152,35 @@ V("C05-h-break-always", "C05", "C05.1", (ITY, "                    if not redo_s
 V("C05-i-redo-flipped", "C05", "C05.3", (TPL, "return timestep, bool(corr < 0.9**2)", "return timestep, bool(corr > 0.9**2)"))
 V("C05-j-corr-mismatch", "C05", "C05.3", (TPL, "            timestep = corr * timestep\n            return timestep", "            timestep = (1 + corr) * timestep\n            return timestep"))
 V("C05-s-ge-form", "C05", "silent", (TPL, "return timestep, bool(corr < 0.9**2)", "return timestep, bool(0.81 > corr)"))
+
+# ---- C09 -----------------------------------------------------------------------------------------
+V("C09-a-first-root", "C09", "C09.2", (DS, "self.integrate(roots[-1])", "self.integrate(roots[0])"))
+V("C09-b-truncate-short", "C09", "C09.1", (DS, "            roots = roots[:t + 1]", "            roots = roots[:t]"))
+V("C09-c-no-status", "C09", "C09.2", (DS, "                            self.integrate(roots[-1])\n                            self.__int_status = 2", "                            self.integrate(roots[-1])"))
+V("C09-d-keep-piece", "C09", "C09.3", (DS, "                            for _ in range(len(self.__sol) - __pre_length):\n                                self.__sol.remove_interpolant(-1 if dTime >= 0 else 0)\n", ""))
+V("C09-e-order-after", "C09", "C09.1", (DS, "        order = D.ar_numpy.argsort(D.ar_numpy.sign(t_next - t_prev) * roots)\n        active_events = active_events[order]\n        roots = roots[order]\n        evs = [evs[idx] for idx in order]\n\n        if D.ar_numpy.any(is_terminal[active_events]):\n            t = D.ar_numpy.nonzero(is_terminal[active_events])[0][0]\n            active_events = active_events[:t + 1]\n            roots = roots[:t + 1]\n            evs = evs[:t + 1]\n            terminate = True\n",
+  "        if D.ar_numpy.any(is_terminal[active_events]):\n            t = D.ar_numpy.nonzero(is_terminal[active_events])[0][0]\n            active_events = active_events[:t + 1]\n            roots = roots[:t + 1]\n            evs = evs[:t + 1]\n            terminate = True\n        order = D.ar_numpy.argsort(D.ar_numpy.sign(t_next - t_prev) * roots)\n        active_events = active_events[order]\n        roots = roots[order]\n        evs = [evs[idx] for idx in order]\n"))
+V("C09-f-pass-callback", "C09", "C09.2", (DS, "self.integrate(roots[-1])", "self.integrate(roots[-1], callback=callback)"))
+V("C09-g-status-before", "C09", "C09.2", (DS, "                            self.integrate(roots[-1])\n                            self.__int_status = 2", "                            self.__int_status = 2\n                            self.integrate(roots[-1])"))
+V("C09-h-last-terminal", "C09", "C09.1", (DS, "t = D.ar_numpy.nonzero(is_terminal[active_events])[0][0]", "t = D.ar_numpy.nonzero(is_terminal[active_events])[0][-1]"))
+V("C09-i-no-loop-exit", "C09", "C09.2", (DS, "tol_epsilon(self.__y[self.counter].dtype))) and not end_int:", "tol_epsilon(self.__y[self.counter].dtype))):"))
+V("C09-j-evs-untruncated", "C09", "C09.1", (DS, "            evs = evs[:t + 1]\n", ""))
+V("C09-k-recommit", "C09", ["C09.2", "C09.3"], (DS, "                            self.integrate(roots[-1])\n                            self.__int_status = 2", "                            self.integrate(roots[-1])\n                            self.__int_status = 2\n                            self.counter += 1"))
+
+# ---- C12 -----------------------------------------------------------------------------------------
+V("C12-a-raise-original", "C12", "C12.1", (DS, "            self.__int_status = new_e\n            raise new_e", "            self.__int_status = new_e\n            raise e"))
+V("C12-b-no-cause", "C12", "C12.1", (DS, "            new_e.__cause__ = e\n", ""))
+V("C12-c-no-trim", "C12", "C12.6", (DS, "                tqdm_progress_bar.close()\n            self.__trim_soln_space()", "                tqdm_progress_bar.close()"))
+V("C12-d-baseexception-first", "C12", "C12.1", (DS, "        except KeyboardInterrupt as e:\n            self.__int_status = e\n            raise e\n        except Exception as e:", "        except BaseException as e:"))
+V("C12-e-decrement-before-events", "C12", "C12.4", (DS, "                        active_events, roots, end_int, evs = handle_events(sol_tuple, events, self.constants, direction, is_terminal, (requires_dstate,))\n                        self.counter -= 1\n",
+   "                        self.counter -= 1\n                        active_events, roots, end_int, evs = handle_events(sol_tuple, events, self.constants, direction, is_terminal, (requires_dstate,))\n"))
+V("C12-f-callback-before-commit", "C12", ["C12.4", "C12.3"], (DS, "                self.__y[self.counter + 1] = self.__y[self.counter] + dState\n                self.__t[self.counter + 1] = self.__t[self.counter] + dTime\n\n                self.counter += 1\n",
+   "                self.__y[self.counter + 1] = self.__y[self.counter] + dState\n                self.__t[self.counter + 1] = self.__t[self.counter] + dTime\n                for i in callback:\n                    i(self)\n\n                self.counter += 1\n"))
+V("C12-g-trim-conditional", "C12", "C12.6", (DS, "            self.__trim_soln_space()\n\n    def __repr__", "            if self.__int_status == 1:\n                self.__trim_soln_space()\n\n    def __repr__"))
+V("C12-h-ki-swallowed", "C12", "C12.1", (DS, "            self.__int_status = e\n            raise e\n        except Exception as e:", "            self.__int_status = e\n        except Exception as e:"))
+V("C12-i-status-overwrite", "C12", "C12.1", (DS, "            if self.__int_status != 2 and not isinstance(self.__int_status,\n                                                         (etypes.FailedIntegration, KeyboardInterrupt)):\n                self.__int_status = 1", "            self.__int_status = 1"))
+V("C12-j-trim-short", "C12", "C12.6", (DS, "        self.__y = self.__y[:self.counter + 1]\n        self.__t = self.__t[:self.counter + 1]", "        self.__y = self.__y[:self.counter + 1]\n        self.__t = self.__t[:self.counter]"))
+V("C12-k-add-before-commit", "C12", "C12.4", (DS, "                self.counter += 1\n\n                if events is not None or self.__dense_output:\n                    __pre_length = len(self.__sol)\n                    __t_interp, __y_interp = self.get_step_interpolant()\n                    self.__sol.add_interpolant(__t_interp, __y_interp)\n",
+   "                if events is not None or self.__dense_output:\n                    __pre_length = len(self.__sol)\n                    __t_interp, __y_interp = self.get_step_interpolant()\n                    self.__sol.add_interpolant(__t_interp, __y_interp)\n                for i in callback:\n                    i(self)\n                self.counter += 1\n\n                if False:\n                    pass\n"))
+V("C12-s-raise-from", "C12", "silent", (DS, "            new_e.__cause__ = e\n            self.__int_status = new_e\n            raise new_e", "            self.__int_status = new_e\n            raise new_e from e"))
+V("C12-s-bare-raise", "C12", "silent", (DS, "            self.__int_status = e\n            raise e\n        except Exception as e:", "            self.__int_status = e\n            raise\n        except Exception as e:"))
